@@ -54,8 +54,8 @@ CLAIMED = {
          "Machine-checked proof for all schedules and caller scripts of the model; co-simulation of every scheduler step with the real code on every run.",
          "Trusted: Lean kernel; detsched; atomic steps between synchronisation calls; camera kind Empty (rendering trivial), simcam_set never fails; fairness for the termination conclusions; the set(off) race (streamer may sleep with the trigger disabled) is outside C18's statement and proved reachable.",
          "DESIGN.md section 5, C18"),
- "C07": ("lean-runtime", "Lean 4 theorems over M1 (guarded-command model of source/filter/sink/client threads over the channel model): thread-flag-device invariant TInv proved for every action of every thread and lifted to every state of every schedule (micro-steps included): when acquire_stop/abort returns the runtime is Armed, all workers have finished, flags clear, devices stopped; joins and thread creation ordered; tie: decision-by-decision co-simulation of the real acquire.c/source.c/filter.c/sink.c/channel.c/HAL on detsched with a mock driver against the compiled model, plus HANG/DEADLOCK and device/storage oracles on abort scenarios outside M1 (triggers, averaging)",
-         "Safety half machine-checked for all client programs, faults and schedules of the model; 'returns after finitely many steps' is decided on the implementation by the deterministic scheduler's hang oracle over the explored schedules (partial: liveness needs fairness).",
+ "C07": ("lean-runtime", "Lean 4 theorems over M1 (guarded-command model of source/filter/sink/client threads over the channel model): thread-flag-device invariant TInv proved for every action of every thread and lifted to every state of every schedule (micro-steps included): when acquire_stop/abort returns the runtime is Armed, all workers have finished, flags clear, devices stopped; joins and thread creation ordered; DWake/DStop: a refusal of writes always has its notify_all ahead of a sleeping source, refused writes stay refused while the source lives, and inside acquire_stop a source asleep on a full ring has a live sink behind it (no orphaned sleeper); tie: decision-by-decision co-simulation of the real acquire.c/source.c/filter.c/sink.c/channel.c/HAL on detsched with a mock driver against the compiled model, plus HANG/DEADLOCK and device/storage oracles on abort scenarios outside M1 (triggers, averaging)",
+         "Safety half machine-checked for all client programs, faults and schedules of the model; 'returns after finitely many steps' is reduced by the no-lost-wake-up and no-orphaned-sleeper theorems to fairness plus the channel-level progress lemmas of C03, and decided on the implementation by the deterministic scheduler's hang oracle over the explored and enumerated schedules (partial: liveness needs fairness).",
          "Trusted: Lean kernel; detsched; mock driver contract; M1's granularity (a step = code between two synchronisation calls, checked by co-simulation of every decision); ring capacity overridden by a wrapper TU; fairness for every 'returns'. Known finding: stalled monitor (known_findings.json).",
          "DESIGN.md section 5, C07"),
  "C08": ("lean-runtime", "Lean 4 theorems over M1: driver starts/stops of a camera pair up in every reachable state whoever stops it, start only on an Armed camera, get_frame/stop only on a Running one, Running devices belong to live workers, acquire_get_state says Running only while a worker of a valid stream is alive, unconfigured streams never get workers, start while Running is refused without touching the acquisition; tie: co-simulation as for C07 + recording mock driver with life-cycle oracles (open/close/start/stop/use-after-close/double close) over API programs generated from the usage grammar incl. device switches, re-configuration, start while running and shutdown",
